@@ -483,7 +483,10 @@ def _collect_update_commands(
             for propkey in set(propkey_to_col).intersection(
                 state.committed_state
             ):
-                value = state_dict[propkey]
+                # an attribute removed with "del obj.attr" has history but no
+                # value: it is written as NULL, which is also what the
+                # attribute reads in the meantime
+                value = state_dict.get(propkey)
                 col = propkey_to_col[propkey]
 
                 if hasattr(value, "__clause_element__") or isinstance(
